@@ -4876,3 +4876,138 @@ func slotCountAgreement(c *Ctx, pk *packages.Package) {
 	}
 	c.Floor("updates of the queue's element counter", n, 3)
 }
+
+// ---------------------------------------------------------------------------
+// sum-over-set (C08) - conflict resolution collects the pooled transactions a new one is going to replace into a
+// slice and then *sums* over it: their network fees have to be outbid, and the system+network fees of those that
+// share the payer are credited to the payer before the balance check. A transaction can get into that slice more
+// than once (named by two Conflicts attributes of the new transaction, or named by it and naming it), but it is
+// removed - and its fee released - once. Every append to a local slice that the same function later ranges over
+// while accumulating must therefore sit behind a membership test on that slice in the same loop body.
+func ruleSumOverSet(c *Ctx) {
+	pk := c.P.Pkg("pkg/core/mempool")
+	if pk == nil {
+		c.Lost("sum-over-set.anchor", "package mempool not found")
+		return
+	}
+	info := pk.TypesInfo
+	n := 0
+	for _, fd := range c.P.AllFuncDecls() {
+		if fd.Pkg != pk || fd.Decl.Body == nil {
+			continue
+		}
+		// slices ranged over with an accumulation in the body
+		summed := map[types.Object]bool{}
+		ast.Inspect(fd.Decl.Body, func(x ast.Node) bool {
+			rs, ok := x.(*ast.RangeStmt)
+			if !ok {
+				return true
+			}
+			id, ok := ast.Unparen(rs.X).(*ast.Ident)
+			if !ok {
+				return true
+			}
+			if _, isSlice := info.TypeOf(id).Underlying().(*types.Slice); !isSlice {
+				return true
+			}
+			acc := false
+			ast.Inspect(rs.Body, func(y ast.Node) bool {
+				switch s := y.(type) {
+				case *ast.AssignStmt:
+					if s.Tok == token.ADD_ASSIGN || s.Tok == token.SUB_ASSIGN {
+						acc = true
+					}
+				case *ast.CallExpr:
+					if sel, ok := s.Fun.(*ast.SelectorExpr); ok {
+						switch sel.Sel.Name {
+						case "Add", "Sub", "SubUint64", "AddUint64":
+							acc = true
+						}
+					}
+				}
+				return true
+			})
+			if acc {
+				if v, ok := info.ObjectOf(id).(*types.Var); ok && v.Parent() != nil && v.Parent() != pk.Types.Scope() {
+					summed[v] = true
+				}
+			}
+			return true
+		})
+		if len(summed) == 0 {
+			continue
+		}
+		// appends to those slices inside loops
+		var loops []ast.Node
+		k := 0
+		var walk func(x ast.Node)
+		walk = func(x ast.Node) {
+			ast.Inspect(x, func(y ast.Node) bool {
+				switch s := y.(type) {
+				case *ast.RangeStmt:
+					loops = append(loops, s)
+					walk(s.Body)
+					loops = loops[:len(loops)-1]
+					return false
+				case *ast.ForStmt:
+					loops = append(loops, s)
+					walk(s.Body)
+					loops = loops[:len(loops)-1]
+					return false
+				case *ast.AssignStmt:
+					if len(s.Lhs) != 1 || len(s.Rhs) != 1 || len(loops) == 0 {
+						return true
+					}
+					lid, ok := s.Lhs[0].(*ast.Ident)
+					if !ok || !summed[info.ObjectOf(lid)] {
+						return true
+					}
+					call, ok := s.Rhs[0].(*ast.CallExpr)
+					if !ok || len(call.Args) < 2 {
+						return true
+					}
+					if fid, ok := call.Fun.(*ast.Ident); !ok || fid.Name != "append" {
+						return true
+					}
+					n++
+					k++
+					key := fmt.Sprintf("sum-over-set.%s.%s#%d", FuncKey(fd.Obj), lid.Name, k)
+					// membership test on the slice earlier in the innermost loop body
+					var body *ast.BlockStmt
+					switch l := loops[len(loops)-1].(type) {
+					case *ast.RangeStmt:
+						body = l.Body
+					case *ast.ForStmt:
+						body = l.Body
+					}
+					tested := false
+					ast.Inspect(body, func(z ast.Node) bool {
+						is, ok := z.(*ast.IfStmt)
+						if !ok || is.Pos() > s.Pos() {
+							return true
+						}
+						ast.Inspect(is.Cond, func(w ast.Node) bool {
+							if ce, ok := w.(*ast.CallExpr); ok && len(ce.Args) >= 1 {
+								if sel, ok := ce.Fun.(*ast.SelectorExpr); ok && strings.HasPrefix(sel.Sel.Name, "Contains") {
+									if aid, ok := ast.Unparen(ce.Args[0]).(*ast.Ident); ok && info.ObjectOf(aid) == info.ObjectOf(lid) {
+										tested = true
+									}
+								}
+							}
+							return true
+						})
+						return true
+					})
+					if tested {
+						c.OK(key, c.P.Pos(s.Pos()), "appended behind a membership test on the slice: an element is summed once")
+					} else {
+						c.Fail(key, c.P.Pos(s.Pos()), fmt.Sprintf("%s appends to %s, over which it later sums, without testing whether the element is in it already: a pooled transaction named twice (two Conflicts attributes with the same hash, or named by the new transaction and naming it) has its fee credited twice while it is removed once - the balance check of the payer is too lenient by that fee", FuncKey(fd.Obj), lid.Name))
+					}
+				}
+				return true
+			})
+		}
+		walk(fd.Decl.Body)
+	}
+	c.Floor("appends to slices that are summed over", n, 2)
+}
